@@ -122,7 +122,9 @@ func (r Promise[T]) dispatchOrAddCallback(cb onCompleteFunc[T]) {
 		return
 
 	case []onCompleteFunc[T]:
-		if r.status.CompareAndSwap(ap, append(status, cb)) {
+		// the full slice expression forces append to copy: racing registrations must not
+		// write into spare capacity of the backing array they all share
+		if r.status.CompareAndSwap(ap, append(status[:len(status):len(status)], cb)) {
 			return
 		}
 		r.dispatchOrAddCallback(cb)
